@@ -32,9 +32,12 @@ Lemma load_bad_budget r : budget (load_bad r) = budget r. Proof. proj_tac. Qed.
 
 Record proc_step2 (p : pid) (s s' : sys) (r r' : proc) : Prop := {
   q_uh : (uh r' = uh r /\ forall ok, ph r <> PRel ok) \/
-         (ph r = PUpd true /\ exists i, names (sfs s) Side = Some i /\ try_lock_ex (sfs s) i p = Some (sfs s') /\ uh r' = Some i) \/
+         (exists i, ph r = PUpd (Some i) /\ try_lock_ex (sfs s) i p = Some (sfs s') /\ uh r' = Some i) \/
          (exists ok, ph r = PRel ok /\ uh r' = None /\ in_body (ph r') = false);
-  q_body : in_body (ph r') = true -> (in_body (ph r) = true /\ uh r' = uh r) \/ (ph r = PUpd true /\ uh r' <> None);
+  q_body : in_body (ph r') = true -> (in_body (ph r) = true /\ uh r' = uh r) \/ ((exists i, ph r = PUpd (Some i)) /\ uh r' <> None);
+  q_upd : forall i, ph r' = PUpd (Some i) ->
+          ph r = PUpd (Some i) \/
+          (ph r = PUpd None /\ i = snd (open_create (sfs s) Side) /\ sfs s' = fst (open_create (sfs s) Side));
   q_rhok : rh_ok r -> rh_ok r';
   q_rh : forall i, rh r' = Some i -> rh r = Some i \/ names (sfs s) Target = Some i;
   q_loaded : loaded_phase (ph r') = true ->
@@ -114,11 +117,11 @@ Proof.
   intros s p s' r r' H Hp Hp'. unfold step in H. destruct (step_core s p) as [| |s1] eqn:Hc; [discriminate| |].
   - rewrite Hp in H. destruct (budget r) as [|b] eqn:Hb.
     + inversion H; subst; clear H. unfold timeout_step in Hp' |- *.
-      destruct (blk_phase _ _ _ Hc Hp) as [Hph|[Hph|Hph]]; rewrite Hph in Hp' |- *; cbn in Hp' |- *; rewrite updp_same in Hp';
+      destruct (blk_phase _ _ _ Hc Hp) as [[iu Hph]|[Hph|Hph]]; rewrite Hph in Hp' |- *; cbn in Hp' |- *; rewrite updp_same in Hp';
         inversion Hp'; subst; clear Hp'; norm; split; slv Hph.
       match goal with H : _ && false = true |- _ => rewrite andb_false_r in H; discriminate H end.
     + inversion H; subst; clear H. cbn in Hp'. rewrite updp_same in Hp'. inversion Hp'; subst; clear Hp'.
-      destruct (blk_phase _ _ _ Hc Hp) as [Hph|[Hph|Hph]]; split; slv Hph.
+      destruct (blk_phase _ _ _ Hc Hp) as [[iu Hph]|[Hph|Hph]]; split; slv Hph.
   - inversion H; subst. eapply step_core_proc2; eauto.
 Qed.
 
@@ -163,7 +166,7 @@ Proof.
   intros s p s' r0 i q H Hp0 Hi Hlt Hor. unfold step in H. destruct (step_core s p) as [| |s1] eqn:Hc; [discriminate| |].
   - rewrite Hp0 in H. destruct (budget r0).
     + inversion H; subst; clear H. unfold timeout_step.
-      destruct (blk_phase _ _ _ Hc Hp0) as [Hph|[Hph|Hph]]; rewrite Hph; cbn; exact Hi.
+      destruct (blk_phase _ _ _ Hc Hp0) as [[iu Hph]|[Hph|Hph]]; rewrite Hph; cbn; exact Hi.
     + inversion H; subst. exact Hi.
   - inversion H; subst; clear H. step_cases Hc; aw_inv; inversion Hp0; subst; clear Hp0; cbn [sfs setp setfp]; auto.
     all: try (eapply keep_try_lock_ex; eassumption).
@@ -184,6 +187,8 @@ Qed.
 
 Record Inv2 (s : sys) : Prop := {
   jG : forall q r, procs s q = Some r -> good_cmd (pcmd r);
+  (* the update-lock name still denotes the inode a process opened: it is never unbound or rebound *)
+  jU0 : forall q r i, procs s q = Some r -> ph r = PUpd (Some i) -> names (sfs s) Side = Some i;
   jU1 : forall q r i, procs s q = Some r -> uh r = Some i -> names (sfs s) Side = Some i /\ lock (sfs s) i = Excl q;
   jU3 : forall q r, procs s q = Some r -> cupd (pcmd r) = true -> in_body (ph r) = true -> uh r <> None;
   jRH : forall q r, procs s q = Some r -> rh_ok r;
@@ -223,6 +228,9 @@ Proof.
   - rewrite Hf. cbn. now rewrite updn_other by discriminate.
   - rewrite Hv' in Hv. exfalso. eapply cons_self_neq; eauto.
 Qed.
+
+Lemma open_create_names f n : names (fst (open_create f n)) n = Some (snd (open_create f n)).
+Proof. unfold open_create. destruct (names f n) eqn:E; cbn; [exact E|apply updn_same]. Qed.
 
 Lemma try_lock_ex_spec f i p f' : try_lock_ex f i p = Some f' -> lock f' i = Excl p.
 Proof. unfold try_lock_ex. destruct (lock f i); intros H; inversion H; subst. cbn. apply updi_same. Qed.
